@@ -2,7 +2,7 @@
 # Offline setup: prime the native build cache (every check also builds lazily, so failure here is not fatal for them).
 cd "$(dirname "$0")"
 export PYTHONPATH="${VERIF_REPO:-/repo}:$PWD" PYTHONDONTWRITEBYTECODE=1
-mkdir -p .work .build evidence replays
+mkdir -p _work .build evidence replays
 /venv/bin/python -c "import jellyfysh, sys; print('jellyfysh from', jellyfysh.__file__)"
 if [ -f vf/native.py ]; then /venv/bin/python -m vf.native prime || echo "native prime failed (checks rebuild lazily)"; fi
 exit 0
